@@ -156,28 +156,121 @@ def gen_doc(rng, reals, savable):
 _MEMO = {}
 
 
+def mutate(rng, b):
+    """damage a saved file: the loader must answer like load_mem (same document or same error class)"""
+    b = bytearray(b)
+    k = rng.randrange(14)
+    def sub(old, new, which='any'):
+        idx = [m.start() for m in re.finditer(re.escape(old), bytes(b))]
+        if not idx:
+            return False
+        i = idx[-1] if which == 'last' else (idx[0] if which == 'first' else rng.choice(idx))
+        b[i:i + len(old)] = new
+        return True
+    if k == 0 and b:
+        for _ in range(rng.randint(1, 3)):
+            b[rng.randrange(len(b))] = rng.choice([0x20, 0x0a, 0x0d, 0x25, 0x28, 0x29, 0x3c, 0x3e, 0x2f, 0x30, 0x39, 0x00, 0xff, 0x6e, 0x66])
+    elif k == 1:
+        del b[rng.randint(max(0, len(b) - 60), len(b)):]
+    elif k == 2:
+        m = re.search(rb'startxref\n(\d+)\n%%EOF$', bytes(b))
+        if m:
+            v = int(m.group(1))
+            nv = rng.choice([v + 1, max(0, v - 1), 0, len(b), len(b) + 1, 10 ** 12, v + rng.randint(-9, 9)])
+            txt = rng.choice([str(nv), ' ' + str(nv) + '  ', '-1', '+' + str(nv), str(nv) + '.0', ''])
+            b[m.start(1):m.end(1)] = txt.encode()
+    elif k == 3:
+        b[0:0] = rng.choice([b'garbage', b'%PDF-9.9', b'\n\n', b'%PD', b'x' * 30 + b'%%EOF'])
+    elif k == 4:
+        ms = list(re.finditer(rb'\n(\d{10}) (\d{5}) ([nf]) \n', bytes(b)))
+        if ms:
+            m = rng.choice(ms)
+            r = rng.randrange(4)
+            if r == 0:
+                v = int(m.group(1)) + rng.choice([1, -1, 7, 100000])
+                b[m.start(1):m.end(1)] = b'%010d' % max(0, v)
+            elif r == 1:
+                b[m.start(2):m.end(2)] = rng.choice([b'00001', b'65535', b'65536', b'99999'])
+            elif r == 2:
+                b[m.start(3):m.end(3)] = b'f' if m.group(3) == b'n' else b'n'
+            else:
+                b[m.end(3):m.end(3) + 2] = rng.choice([b'\r\n', b' \r', b'\n\n', b'  '])
+    elif k == 5:
+        b += rng.choice([b'\n', b'\r\n', b' ', b'\n%%EOF', b'\nstartxref\n0\n%%EOF', b'x' * 600, b'%comment'])
+    elif k == 6:
+        sub(b'endobj', rng.choice([b'      ', b'endobk', b'', b'endobj endobj']))
+    elif k == 7:
+        m = list(re.finditer(rb'/Length (\d+)', bytes(b)))
+        if m:
+            mm = rng.choice(m)
+            b[mm.start(1):mm.end(1)] = str(max(0, int(mm.group(1)) + rng.choice([-1, 1, 2, 50, 100000]))).encode() if rng.random() < 0.8 else b'-3'
+    elif k == 8:
+        sub(b'/Size', rng.choice([b'/Prev 0/Size', b'/Prev 9/Size', b'/Prev -1/Size', b'/Prev 999999/Size', b'/Prev(x)/Size', b'/Siz',
+                                   b'/XRefStm 0/Prev 0/Size', b'/Encrypt 1 0 R/Size']), 'last')
+    elif k == 9:
+        sub(b'xref\n', rng.choice([b'xref\r\n', b'xref\r', b'xref \n', b'xreg\n', b'xref\n\n']), 'last')
+    elif k == 10:
+        sub(b' obj\n', rng.choice([b' obj', b' obj\r\n%c\n', b' obj ', b' obk\n', b'  obj\n']))
+    elif k == 11:
+        sub(b'trailer\n', rng.choice([b'trailer', b'trailer\r\n', b'trailer %x\n', b'trailor\n', b'']), 'last')
+    elif k == 12:
+        sub(b'%%EOF', rng.choice([b'%%EOF\n', b'%%EOG', b'%EOF', b'%%EOF%%EOF']), 'last')
+    else:
+        sub(b'stream\n', rng.choice([b'stream\r\n', b'stream\r', b'stream \t\n', b'stream', b'strean\n']))
+    return bytes(b)
+
+
 def gen_cases(rng, tier):
     key = tier        # one seed per process: run() needs the same cases twice
     if key in _MEMO:
         return _MEMO[key]
     exe, log = vlib.build_harness('f32disp')
     reals = RealSource(exe)
-    n = 400 if tier == 'quick' else 10000
+    n = 330 if tier == 'quick' else 8000
     cases = []
     for k in range(n):
         savable = rng.random() < 0.8
         fmt, doc = gen_doc(rng, reals, savable)
-        line = L('save', fmt, doc)
-        cases.append((line, {'kind': 'save-%s-%s' % (fmt, 'savable' if savable else 'any'), 'nontrivial': '(objs (' in line}))
+        tag = 'rt' if rng.random() < 0.85 else 'save'
+        line = L(tag, fmt, doc)
+        cases.append((line, {'kind': '%s-%s-%s' % (tag, fmt, 'savable' if savable else 'any'), 'nontrivial': '(objs (' in line}))
     # the stream format's panic boundary (max_id + 2 overflows): cheap only for the stream format
     cases.append((L('save', 'stream', DOC(b'1.5', b'\xbb\xad', [], [((3, 0), I(7))], 4294967294)), {'kind': 'save-edge', 'nontrivial': True}))
     cases.append((L('save', 'table', DOC(b'1.5', b'\xbb\xad', [], [((3, 0), I(7))], 4294967295)), {'kind': 'save-edge', 'nontrivial': True}))
+    # damaged files: bytes saved by the implementation itself, then mutated
+    impl, log = vlib.build_harness('c01')
+    if impl is not None:
+        base = [L('save', rng.choice(['table', 'stream']), gen_doc(rng, reals, True)[1]) for _ in range(60 if tier == 'quick' else 1500)]
+        outs = vlib.run_lines(impl, base, timeout=600, shards=8)
+        files = []
+        for o in outs:
+            m = re.match(r'^\(saved x([0-9a-f]*) ', o)
+            if m:
+                files.append(bytes.fromhex(m.group(1)))
+        for f in files:
+            for _ in range(3):
+                cases.append((L('load', xb(mutate(rng, f))), {'kind': 'load-mutated', 'nontrivial': True}))
+        for f in (b'', b'%PDF-1.4', b'%PDF-1.5\n%%EOF\n', b'%PDF-1.4\nstartxref\n0\n%%EOF', b'x' * 40 + b'\nstartxref\n5\n%%EOF',
+                  b'%PDF-\xff\n' + b' ' * 30 + b'startxref\n0\n%%EOF'):
+            cases.append((L('load', xb(f)), {'kind': 'load-fixed', 'nontrivial': True}))
     _MEMO[key] = cases
     return cases
 
 
+UNMODELLED = {'n': 0}
+
+
 def compare(model, impl):
-    return vlib.compare_canon_reals(model, impl)
+    """equal up to real canonicalisation; a model answer that stops at (unmodelled) -- Length given as a reference, object
+    streams, a filtered cross-reference stream, Encrypt -- is compared up to that point only (and counted)"""
+    if vlib.compare_canon_reals(model, impl):
+        return True
+    cm, ci = vlib.canon_reals(model), vlib.canon_reals(impl)
+    i = cm.find('(unmodelled)')
+    if i >= 0 and cm[:i] == ci[:i]:
+        UNMODELLED['n'] += 1
+        return True
+    return False
 
 
 def sx_parse(s):
@@ -271,4 +364,15 @@ def seq_pass(ctx):
 
 def run(ctx):
     seq_pass(ctx)
-    return propcheck.standard_check(ctx, SPEC)
+    UNMODELLED['n'] = 0
+    rc = propcheck.standard_check(ctx, SPEC)
+    # record how many cases were compared only up to an (unmodelled) answer of the loader model
+    import json
+    p = os.path.join(vlib.ROOT, 'evidence', 'C01.json')
+    try:
+        ev = json.load(open(p))
+        ev['coverage'].setdefault('notes', []).append('cases compared up to an (unmodelled) loader answer: %d' % UNMODELLED['n'])
+        json.dump(ev, open(p, 'w'), indent=1)
+    except OSError:
+        pass
+    return rc
